@@ -133,7 +133,9 @@ func (c *BaseClient) Connect(ctx context.Context, clientID string, opts ...Conne
 
 	chConnAck := make(chan *pktConnAck, 1)
 	c.mu.Lock()
+	c.sig.mu.Lock()
 	c.sig.chConnAck = chConnAck
+	c.sig.mu.Unlock()
 	c.mu.Unlock()
 
 	pkt := (&pktConnect{
